@@ -97,32 +97,36 @@ theorem inflight_race_witness :
 
 /-! ### subscribe -/
 
-/-- every argument is confirmed exactly once, in order, carrying its position -/
+/-- every argument is confirmed exactly once, in order, carrying its position (a command that is not refused:
+    SUBSCRIBE always, PSUBSCRIBE when every pattern compiles — `subscribe_refused_iff`) -/
 theorem subscribe_confirms_each_once (conn : Nat) (wp : Bool) (names : List Bytes) (t : Table)
     (h : (subscribe conn wp names t).2.2 = false) :
     (subscribe conn wp names t).2.1 = (names.zipIdx 0).map fun x => Push.confirm conn (action wp false) x.1 (x.2 + 1) := by
-  have := subscribeLoop_confirms conn wp names 0 t [] h
-  unfold subscribe
-  simpa using this
+  rw [(subscribe_accepted conn wp names t h).2, subscribeLoop_confirms conn wp names 0 t []]
+  simp
 
 /-- after (P)SUBSCRIBE the connection is a subscriber of an entry of each name -/
 theorem subscribe_then_listed (conn : Nat) (wp : Bool) (names : List Bytes) (t : Table)
     (h : (subscribe conn wp names t).2.2 = false) :
-    ∀ n ∈ names, ∃ c ∈ (subscribe conn wp names t).1, c.name = n ∧ conn ∈ c.subs :=
-  subscribeLoop_listed conn wp names 0 t [] h
+    ∀ n ∈ names, ∃ c ∈ (subscribe conn wp names t).1, c.name = n ∧ conn ∈ c.subs := by
+  rw [(subscribe_accepted conn wp names t h).1]
+  exact subscribeLoop_listed conn wp names 0 t []
 
 /-- … and that entry has the kind of the command unless the name is already taken by the other kind -/
 theorem subscribe_kind_partial (conn : Nat) (wp : Bool) (names : List Bytes) (t : Table)
     (h : ∀ c ∈ t, c.name ∈ names → c.pat = wp) :
     ∀ c ∈ (subscribe conn wp names t).1, c.name ∈ names → c.pat = wp := by
   intro c hc hn
-  have := subscribeLoop_kind conn wp names names 0 t [] (by
-    intro x hx hxa
-    unfold kinds at hx
-    simp only [List.mem_map] at hx
-    obtain ⟨c, hc, rfl⟩ := hx
-    exact h c hc hxa) (c.name, c.pat) (by unfold kinds; exact List.mem_map.2 ⟨c, hc, rfl⟩) hn
-  exact this
+  unfold subscribe at hc
+  split at hc
+  · exact h c hc hn
+  · have := subscribeLoop_kind conn wp names names 0 t [] (by
+      intro x hx hxa
+      unfold kinds at hx
+      simp only [List.mem_map] at hx
+      obtain ⟨c, hc, rfl⟩ := hx
+      exact h c hc hxa) (c.name, c.pat) (by unfold kinds; exact List.mem_map.2 ⟨c, hc, rfl⟩) hn
+    exact this
 
 /-- PSUBSCRIBE to a name held by a plain channel joins the plain channel: no pattern subscription exists afterwards -/
 theorem subscribe_kind_witness :
@@ -168,12 +172,12 @@ theorem unsubscribe_kind_witness :
 /-- … and PUNSUBSCRIBE cancels channel subscriptions whose names match the pattern -/
 theorem punsubscribe_witness :
     let t : Table := [{ name := b "ab", pat := false, subs := [1] }]
-    absT (unsubscribe 1 true [b "a*"] t).1 = [] ∧ (unsubscribe 1 true [b "a*"] t).2.1 = [b "ab"] := by decide
+    absT (unsubscribe 1 true [b "a*"] t).1 = [] ∧ (unsubscribe 1 true [b "a*"] t).2 = [b "ab"] := by decide
 
 /-- the count in an unsubscribe confirmation is the ordinal of the removal, not the number of subscriptions left -/
 theorem unsubscribe_count_witness :
     let t : Table := [{ name := b "a", pat := false, subs := [1] }, { name := b "b", pat := false, subs := [1] }, { name := b "c", pat := false, subs := [1] }]
-    (unsubscribe 1 false [b "a"] t).2.1 = [b "a"] ∧ countOf (absT (unsubscribe 1 false [b "a"] t).1) 1 = 2 := by decide
+    (unsubscribe 1 false [b "a"] t).2 = [b "a"] ∧ countOf (absT (unsubscribe 1 false [b "a"] t).1) 1 = 2 := by decide
 
 /-! ### introspection is a function of the table -/
 
@@ -286,7 +290,90 @@ theorem glob_star_matches_everything (s : Bytes) : gmatch (b "*") s = true := by
 /-- the compiled matcher departs from glob semantics on the empty name: a lone `?` accepts it -/
 theorem glob_lone_wildcard_witness : gmatch (b "?") [] = true ∧ gideal (b "?") [] = false := by decide
 
-/-- a malformed pattern makes PSUBSCRIBE panic in the handler (`glob.MustCompile`) -/
-theorem malformed_pattern_witness : (subscribe 1 true [b "["] []).2.2 = true := by decide
+/-! ### a pattern that does not compile (`glob.Compile` answers an error) -/
+
+theorem exec_never_panics (t : Table) (conn : Nat) (c : Cmd) : (exec t conn c).out ≠ .panic := by
+  cases c with
+  | sub wp args => simp only [exec]; repeat' split
+                   all_goals (intro h; cases h)
+  | unsub wp args => intro h; cases h
+  | publish args => simp only [exec]; split <;> (intro h; cases h)
+  | pubsub name args => simp only [exec]; repeat' split
+                        all_goals (intro h; cases h)
+  | other => intro h; cases h
+
+/-- **No command makes a pub/sub handler panic**, whatever the table, the connection and the argument bytes —
+    in particular no malformed pattern does (`glob.MustCompile` on the client's argument used to: class
+    `malformed-pattern-panics`, repaired upstream). -/
+theorem malformed_pattern_never_panics (t : Table) (conn : Nat) (cmd : List Bytes) : (step t conn cmd).out ≠ .panic := by
+  unfold step
+  split
+  · intro h; cases h
+  · exact exec_never_panics t conn _
+
+/-- … so the classifier's panic test is constantly false: the class `malformed-pattern-panics` is never named -/
+theorem model_never_panics (t : Table) (conn : Nat) (cmd : List Bytes) : Known.PubSub.modelPanics t conn cmd = false := by
+  unfold Known.PubSub.modelPanics
+  split
+  · rename_i h; exact absurd h (malformed_pattern_never_panics t conn cmd)
+  · rfl
+
+/-- **PSUBSCRIBE with a pattern that does not compile is refused as a whole**: the reply is the error, the table is
+    untouched, nothing is confirmed — also for the arguments before the offending one, on every connection
+    (the embedded caller included). -/
+theorem psubscribe_malformed_refused (t : Table) (conn : Nat) (args : List Bytes)
+    (h : args.any (fun a => !compiles a) = true) :
+    (exec t conn (.sub true args)).table = t ∧ (exec t conn (.sub true args)).pushes = [] ∧
+    (match (exec t conn (.sub true args)).out with
+     | .err m => m == invalidPattern
+     | _ => false) = true := by
+  have hne : args.isEmpty = false := by
+    cases args with
+    | nil => simp at h
+    | cons a r => rfl
+  have hr : (subscribe conn true args t).2.2 = true := by rw [subscribe_refused_iff]; simp [h]
+  simp only [exec, hne, hr, Bool.false_eq_true, if_false, if_true]
+  decide
+
+/-- a PSUBSCRIBE all of whose patterns compile is never refused, and SUBSCRIBE never is -/
+theorem subscribe_accepted_iff (conn : Nat) (wp : Bool) (names : List Bytes) (t : Table) :
+    (subscribe conn wp names t).2.2 = false ↔ (wp = false ∨ ∀ n ∈ names, compiles n = true) := by
+  rw [subscribe_refused_iff]
+  cases wp <;> simp
+
+/-- **PUNSUBSCRIBE treats a pattern that does not compile as one that matches no name**: the glob pass skips it
+    (the exact-name pass has already dealt with an entry called like it), and the command is answered with its
+    confirmations like any other. -/
+theorem punsubscribe_malformed_matches_nothing (conn : Nat) (p : Bytes) (r : List Bytes) (t : Table) (acc : List Bytes)
+    (h : compiles p = false) : unsubGlobs conn (p :: r) t acc = unsubGlobs conn r t acc := by
+  rw [unsubGlobs]; simp [h]
+
+theorem punsubscribe_answers (t : Table) (conn : Nat) (args : List Bytes) :
+    ∃ names, (exec t conn (.unsub true args)).out = .unsubReply (b "punsubscribe") names :=
+  ⟨_, rfl⟩
+
+/-- **PUBSUB CHANNELS with a pattern that does not compile answers the error** and changes nothing -/
+theorem pubsub_channels_malformed_error (t : Table) (conn : Nat) (name p : Bytes) (hp : p.isEmpty = false)
+    (h : compiles p = false) :
+    (exec t conn (.pubsub name [b "channels", p])).table = t ∧
+    (match (exec t conn (.pubsub name [b "channels", p])).out with
+     | .err m => m == invalidPattern
+     | _ => false) = true := by
+  have l : toLower (b "channels") = b "channels" := by decide
+  simp [exec, l, hp, h]
+
+/-- non-vacuity: `[` does not compile; PSUBSCRIBE a [ on connection 1 answers the error and subscribes nothing (not
+    even `a`); PUNSUBSCRIBE [ and PUBSUB CHANNELS [ are answered -/
+example : compiles (b "[") = false := by decide
+example : (step [] 1 [b "PSUBSCRIBE", b "a", b "["]).table = [] ∧
+    (match (step [] 1 [b "PSUBSCRIBE", b "a", b "["]).out with
+     | .err m => m == b "invalid glob pattern"
+     | _ => false) = true := by decide
+example : (match (step [{ name := b "[", pat := false, subs := [1] }] 1 [b "PUNSUBSCRIBE", b "["]).out with
+     | .unsubReply _ names => names == [b "["]
+     | _ => false) = true := by decide
+example : (match (step [] 0 [b "PUBSUB", b "CHANNELS", b "["]).out with
+     | .err m => m == b "invalid glob pattern"
+     | _ => false) = true := by decide
 
 end Sugar.Props.C18
